@@ -160,7 +160,11 @@ cdef class LegacyRecordBatch:
             char* buf
         buf = <char*> self._buffer.buf
         while pos < buffer_len:
+            self._check_bounds(pos, LOG_OVERHEAD)
             length = <Py_ssize_t> hton.unpack_int32(&buf[pos + LENGTH_OFFSET])
+            if length < RECORD_OVERHEAD_V0_DEF:
+                raise CorruptRecordException(
+                    "Invalid inner message size {}".format(length))
             pos += LOG_OVERHEAD + length
         if pos > buffer_len:
             raise CorruptRecordException("Corrupted compressed message")
